@@ -113,7 +113,7 @@ Proof. intros choices H. split; [apply gen_valid|apply nodup_nids_sound; exact H
 (* ------------------------------------------------------------------------------------------ *)
 (* the example program: two libraries, overloaded subprograms, a site for every fault class     *)
 (* ------------------------------------------------------------------------------------------ *)
-Definition example_choices : list N := map (fun k => (N.of_nat k * 157 + 13) mod 1000) (seq 0 2500).
+Definition example_choices : list N := map (fun k => (N.of_nat k * 181 + 13) mod 1000) (seq 0 2500).
 Definition example_program : program := gen_program example_choices.
 (* names declared by more than one subprogram declaration of one package *)
 Definition sub_names (ds : list decl) : list ident :=
@@ -138,7 +138,7 @@ Proof.
   split; [vm_compute; reflexivity|].
   split; [vm_compute; reflexivity|].
   (* a concurrent statement wrapped into two nested blocks, an integer type (implicit operators) added to the inner one *)
-  exists [RWrap 245 104; RWrap 245 105; RAddLocal 331 106 1 0].
+  exists [RWrap 262 88; RWrap 262 89; RAddLocal 291 90 1 0].
   split; [reflexivity|].
   split; [vm_compute; reflexivity|vm_compute; reflexivity].
 Qed.
